@@ -655,7 +655,7 @@ func (g *G) expr1(sc *Scope, want *Ty, depth int) *Expr {
 			return bin(g.Pick("+", "-", "*"), a, b)
 		case 1:
 			a, _ := g.num(sc, d)
-			dv := []string{"2", "4", "0.5", "8", "2.0", "-2", "1"}[g.Intn(7)]
+			dv := []string{"2", "4", "0.5", "8", "2.0", "-2", "1", "0"}[g.Intn(8)] // (x/0 is an infinity or NaN)
 			var de *Expr
 			if dv == "0.5" || dv == "2.0" {
 				de = &Expr{Op: "float", Text: dv}
